@@ -304,6 +304,30 @@ def _cond_is_used_in_loop_body(graph: GraphProto) -> bool:
     return False
 
 
+def _callees_first(functions: Sequence[FunctionProto]) -> list[FunctionProto]:
+    """Orders model-local functions so that a function follows the functions it calls (python
+    needs the definition before the call). The given order is kept where possible."""
+    by_id = {(f.domain, f.name): f for f in functions}
+    ordered: dict[tuple[str, str], FunctionProto] = {}
+
+    def visit(nodes, pending):
+        for node in nodes:
+            key = (node.domain, node.op_type)
+            if key in by_id and key not in ordered and key not in pending:
+                visit(by_id[key].node, {*pending, key})
+                ordered[key] = by_id[key]
+            for attr in node.attribute:
+                for graph in [attr.g, *attr.graphs]:
+                    visit(graph.node, pending)
+
+    for f in functions:
+        if (f.domain, f.name) not in ordered:
+            visit(f.node, {(f.domain, f.name)})
+            ordered[(f.domain, f.name)] = f
+    # Functions that share (domain, name), e.g. overloads, are left as they are.
+    return list(ordered.values()) if len(ordered) == len(functions) else list(functions)
+
+
 class _Exporter:
     """Class used for recursive traversal of Proto structures."""
 
@@ -328,6 +352,8 @@ class _Exporter:
         self._name_remappings: list[dict[str, str]] = []
         self.skip_initializers = skip_initializers
         self.skipped_initializers: dict[str, onnx.TensorProto] = {}
+        # Python name -> (domain, name) of the function it is bound to in the text so far.
+        self._local_functions: dict[str, tuple[str, str]] = {}
 
     def _handle_attrname_conflict(self, renamer):
         """Add ref-attr-name-conflict handling logic to renaming function."""
@@ -675,6 +701,11 @@ class _Exporter:
         callee_name = self._make_callee_name(
             node.domain, opsets[node.domain], node.op_type, node=True
         )
+        local_name = self._make_callee_name(node.domain, 1, node.op_type)
+        if self._local_functions.get(local_name) == (node.domain, node.op_type):
+            # A call of a function defined above: calling the python function (rather than
+            # an op of its Opset) makes the converter add the callee to the model's functions.
+            callee_name = local_name
         attributes_str = self._translate_attributes(node)
         if len(node.input) > 0 and len(attributes_str) > 0:
             attributes_str = f", {attributes_str}"
@@ -781,6 +812,7 @@ class _Exporter:
         default_opset = self._default_opset_arg(opsets)
         add_line(f"@script({opset_name}{', ' if default_opset else ''}{default_opset})")
         fun_name = self._make_callee_name(funproto.domain, 1, funproto.name)
+        self._local_functions[fun_name] = (funproto.domain, funproto.name)
         fun_sig = self._translate_function_signature(funproto)
         add_line(f"def {fun_name}{fun_sig}")
         if funproto.doc_string:
@@ -945,7 +977,8 @@ def make_model_with_random_weights():
         add(self._import_onnx_types(proto))
 
         if isinstance(proto, ModelProto):
-            translated_functions = [self._translate_function(f) for f in proto.functions]
+            functions = _callees_first(proto.functions)
+            translated_functions = [self._translate_function(f) for f in functions]
             translated_functions.append(self._translate_graph(proto, function_name))
         else:
             assert isinstance(proto, FunctionProto)
